@@ -106,6 +106,31 @@ class QueryCtx(object):
             g.close()
         return out
 
+    def nested_reuse(self):
+        """an argument list prepared ONCE by the caller and used for an inner query at every answer of this query (the documented
+        nested-loop idiom) stays the caller's list: the inner goal Z = V sees V's value of the current answer each time"""
+        Z = self.yp.variable()
+        inner_args = [self.evars[0], Z]
+        g = self.new()
+        n = 0
+        try:
+            for _ in g:
+                n += 1
+                want = S.from_engine(self.evars[0])
+                seen = [S.from_engine(Z) for _ in self.yp.query('=', inner_args)]
+                if seen != [want]:
+                    return ('at answer %d the inner goal Z = V over a reused argument list gives Z = %s, V is %s'
+                            % (n, seen, want))
+                if inner_args[0] is not self.evars[0] or inner_args[1] is not Z:
+                    return 'at answer %d the inner query changed the argument list it was given' % n
+                if n >= CAP:
+                    break
+        except Exception as e:      # noqa
+            return 'nested run raised %s: %s' % (type(e).__name__, e)
+        finally:
+            g.close()
+        return None
+
     def leftovers(self):
         b = VarTracker.bound(self.evars)
         return 'still bound afterwards: %d variable(s), e.g. %s' % (len(b), S.from_engine(b[0])) if b else None
@@ -131,6 +156,8 @@ class QueryCtx(object):
                 got = self.full()
                 prob = None if same_answers(self.base, got) else 'full run gives %s, first run gave %s' % (show(got), show(self.base))
                 nontrivial = any(not is_exc(a) for a in got)
+                if prob is None and self.evars and not any(is_exc(a) for a in got):
+                    prob = self.nested_reuse()
             elif mode in ('close', 'del', 'throw'):
                 g = self.new()
                 prob = self.take(g, k)
